@@ -536,7 +536,7 @@ func newConcRunOpts(sysName string, versioned bool, seed int64, big bool, so Sys
 	if sys.Single() {
 		single = concBucket
 	}
-	reset := cEvent{T: "reset", Seq: cr.next(), Cfg: Op{"versioned": sys.Versioned() && (so.Wrap == nil || isVersioned(sys.Backend)), "paginate": sys.Paginates(), "single": single},
+	reset := cEvent{T: "reset", Seq: cr.next(), Cfg: Op{"versioned": sys.Versioned() && (so.Wrap == nil || isVersioned(sys.Backend)), "paginate": sys.Paginates(), "single": single, "auto": so.Auto, "autosteps": so.Auto},
 		Buckets: []string{concBucket}, Versioning: ver, Sys: sysName}
 	return cr, reset, nil
 }
